@@ -127,7 +127,8 @@ class R:
         for at in part.get("raw_attrs", []):
             lines.append("    " + at)
         lines.append(f"    pub trait {part['trait']}{part.get('trait_generics', '')} {{")
-        items = [] if part.get("no_error_type") else ["        type Error: From<StdError>;"]
+        items = ["        " + ia for ia in part.get("inner_attrs", [])]
+        items += [] if part.get("no_error_type") else ["        type Error: From<StdError>;"]
         if mode == "assoc":
             items.append("        type ExecC: CustomMsg;")
             items.append("        type QueryC: CustomQuery;")
@@ -246,6 +247,8 @@ class R:
         for at in c.get("raw_attrs", []):
             lines.append(at)
         lines.append(f"impl{self.gdecl} {self.cid}{self.gdecl}{self.gwhere} {{")
+        for ia in c.get("inner_attrs", []):
+            lines.append("    " + ia)
         for extra in c.get("extra_items_first", []):
             lines.append("    " + extra)
         nm = p.get("new_mode")
